@@ -804,6 +804,18 @@ func (g *Gen) refsStep() {
 		if g.r.Intn(3) == 0 {
 			g.emit(line)
 		}
+		// the response document itself addressed as a manifest: read and (attempted) delete by its digest
+		if i := strings.Index(out, " body=["); i >= 0 && !strings.Contains(line, " at=") && !strings.Contains(out, "link=next(") && g.r.Intn(5) == 0 {
+			inner := out[i+7:]
+			if j := strings.Index(inner, "] ct="); j > 0 {
+				tok := "sha256:R(" + inner[:j] + ")"
+				g.emit(fmt.Sprintf("MGET %s %s accept=ocii", repo, tok))
+				if g.r.Intn(2) == 0 {
+					g.emit(fmt.Sprintf("MDEL %s %s", repo, tok))
+					g.emit(line)
+				}
+			}
+		}
 	}
 }
 
